@@ -845,6 +845,15 @@ def round17_entries():
     return out
 
 
+def round18_entries():
+    """closing the misses of seed round 18"""
+    out = []
+    # comdat names that BEGIN with the sigil character `$` or contain it (`$$x`: the name is `$x`), explicit and implicit (a global variable / function of that name)
+    for i, nm in enumerate(("$x", "$$", "a$b", "$", "$$x$")):
+        out.append(("comdat-dollar.%d" % i, "$%s = comdat any\n$x%d = comdat largest\n\n@g = global i32 0, comdat($%s)\n@%s = global i32 1, comdat\n\ndefine void @f() comdat($%s) {\n\tret void\n}\n" % (nm, i, nm, nm, nm),
+                    ["$%s = comdat any" % nm, "@g = global i32 0, comdat($%s)" % nm, "@%s = global i32 1, comdat\n" % nm, "define void @f() comdat($%s) {" % nm]))
+    return out
+
 def bare_digit_identifiers():
     """identifiers made of digits at the boundaries of the ID range, written BARE (2^63 - 1 is the largest ID llir reads; from 2^63 on it reads the digits as a NAME; LLVM
     reads every bare digit identifier as an ID, so these are no LLVM inputs: C02 only — whatever the parser accepts is printed as a one-step fixpoint)"""
@@ -964,4 +973,4 @@ def layout_entries():
 
 
 def all_entries(rows):
-    return kw_entries(rows) + STRUCTURED + NAMED_NONSTRUCT + inst_entries() + DI + MISC + comdat_entries() + flag_cross_entries() + addrspace_cross_entries() + written_type_entries() + REPEATS + UINT_LITS + order_entries() + DI_REFS + clausegen.all_entries() + layout_entries() + round13_entries() + round14_entries() + round15_entries() + round16_entries() + round17_entries()
+    return kw_entries(rows) + STRUCTURED + NAMED_NONSTRUCT + inst_entries() + DI + MISC + comdat_entries() + flag_cross_entries() + addrspace_cross_entries() + written_type_entries() + REPEATS + UINT_LITS + order_entries() + DI_REFS + clausegen.all_entries() + layout_entries() + round13_entries() + round14_entries() + round15_entries() + round16_entries() + round17_entries() + round18_entries()
